@@ -59,6 +59,7 @@ func (e *Engine) globalObj(g *ssa.Global) ObjID {
 	id := e.nextObj
 	e.base[id] = e.Zero(g.Type().(*types.Pointer).Elem())
 	e.globals[g] = id
+	e.sharedObjs[id] = true
 	e.ensureInit(g.Pkg)
 	return id
 }
@@ -90,6 +91,7 @@ func (e *Engine) ensureInit(pkg *ssa.Package) {
 	e.CallFunc(st, initFn, nil, nil)
 	for id, v := range st.heap.over {
 		e.base[id] = v
+		e.sharedObjs[id] = true
 	}
 }
 
@@ -642,6 +644,9 @@ func (e *Engine) convert(st *St, v Value, from, to types.Type) Value {
 			if w, _, _ := intInfo(sl.Elem()); w == 8 {
 				return e.copyBytes(st, v.(*SliceV), false)
 			}
+			if w, _, _ := intInfo(sl.Elem()); w == 32 {
+				return e.stringToRunes(st, v.(*SliceV))
+			}
 		}
 	}
 	if _, ok := v.(*OpaqueV); ok {
@@ -800,4 +805,33 @@ func (e *Engine) typeAssert(st *St, x *ssa.TypeAssert) Value {
 	}
 	e.panicIf(st, S.Not(okc), "interface conversion: not "+x.AssertedType.String())
 	return val
+}
+
+// stringToRunes implements []rune(s) by decoding with the real utf8.DecodeRuneInString.
+func (e *Engine) stringToRunes(st *St, s *SliceV) *SliceV {
+	S := e.S
+	n := e.maxLen(st, s)
+	dec := e.findFunc("unicode/utf8", "DecodeRuneInString")
+	if dec == nil {
+		e.unsupported("[]rune(string) needs unicode/utf8 in the program")
+	}
+	cells := make([]Value, n)
+	for i := range cells {
+		cells[i] = S.Const(0, 32)
+	}
+	pos, count := e.c64(0), e.c64(0)
+	for k := 0; k < n; k++ {
+		valid := S.SLt(pos, s.Len)
+		if valid.IsFalse() {
+			break
+		}
+		sub := &SliceV{Base: s.Base, Off: S.Add(s.Off, pos), Len: S.Ite(valid, S.Sub(s.Len, pos), e.c64(0)), IsStr: true}
+		res := e.CallFunc(st, dec, []Value{sub}, nil)
+		r, size := res[0].(*T), res[1].(*T)
+		cells[k] = S.Ite(valid, r, S.Const(0, 32))
+		pos = S.Ite(valid, S.Add(pos, size), pos)
+		count = S.Ite(valid, S.Add(count, e.c64(1)), count)
+	}
+	id := e.newObj(st.heap, &ArrayV{E: cells})
+	return &SliceV{Base: e.ptrTo(id), Off: e.c64(0), Len: count, Cap: count}
 }
